@@ -10,6 +10,8 @@ ENTRY = dict(
                   "c19_no_reset", "c19_pre_pass_pattern", "c19_no_reuseb_sound", "c19_suffix_avoids_sourcesb_sound",
                   "c19_values_unaffected", "c19_repair_values",
                   "c19_cut_wires_no_reuse",
+                  "c19_input_ok_plain", "c19_cut_wires_no_reuse_gen",
+                  "c19_separated_no_reuse", "c19_separated_suffix", "c19_separated_no_reset",
                   "c19_facts_move_table", "c19_facts_move_shape", "c19_facts_order"],
         allowed_axioms=[],
         facts=["c19_move_table", "c19_inner_loop_calls", "c19_dummy_index", "reset_pipeline_order"],
@@ -23,7 +25,18 @@ ENTRY = dict(
                    "placeholders: bases without Reset; no Reset of its own) and a measured-qubit list avoiding the source qubits, the "
                    "modelled pipeline (register, decomposition = C14's model and splice theorem, repair step for the identity group, "
                    "measurement suffix, three passes) returns a circuit with zero resets, for every map choice; (4) the cut_wires model "
-                   "(C03) produces circuits with that no-re-use property; (5) the three passes keep the Herbrand term of every classical "
+                   "(C03) produces circuits with that no-re-use property (also when the input already holds gate-cut placeholders "
+                   "whose bases have no Reset); (4b) the SEPARATED workflow, composed from the models of C03, C10 and C11: for every "
+                   "circuit with wire-cut markers (no Reset, no one-qubit placeholder, pre-placed two-qubit placeholders only with "
+                   "reset-free bases), cut_wires then partition_problem with ANY labelling it accepts (explicit or automatic; gates "
+                   "it cuts itself have reset-free bases) gives subcircuits that all satisfy no-re-use (c19_separated_no_reuse: "
+                   "'source half last / destination half first on its qubit' is carried wire by wire through placeholder insertion, "
+                   "numbering, the two halves, the decompose oracle, restriction to a label and qubit re-indexing, using C10's "
+                   "recomposition theorem); for observables expanded from the original qubits (expand_observables model) the measured "
+                   "qubits of every commuting group of every partition avoid the source qubits (c19_separated_suffix: a source "
+                   "position is never an original qubit's position, restriction keeps letters, a group measures only where a member is "
+                   "non-identity); hence every partition, every group - the identity group with its placeholder measurement included - "
+                   "and every valid map choice yields zero resets (c19_separated_no_reset); (5) the three passes keep the Herbrand term of every classical "
                    "bit (C12) and the repair step keeps the term of every classical bit the appended suffix does not write. The `move` basis "
                    "table and the call order are regenerated from the source and pinned by reflexivity. Closed under the global context. "
                    "The model is run against >600 real subexperiments per run (pre-pass circuit rebuilt through the private functions).",
@@ -38,9 +51,17 @@ ENTRY = dict(
             "decomposed circuit, and of the model's passes applied to the implementation's intermediate circuit) and by the regenerated "
             "facts (move table, inner-loop call order, pass order, dummy index)",
             "no_reuse is stated on the circuit handed to generate_cutting_experiments (subcircuit with SingleQubitQPDGate halves, or the "
-            "unseparated circuit with TwoQubitQPDGates); c19_cut_wires_no_reuse establishes it for the unseparated cut_wires output; that "
-            "partition_problem/separate_circuit keep every wire's instruction order (so the property carries over to the subcircuits) is "
-            "NOT proved here (C10's model) - the separated workflow is covered by the correspondence check and the judge only",
+            "unseparated circuit with TwoQubitQPDGates); c19_cut_wires_no_reuse(_gen) establishes it for the unseparated cut_wires output, "
+            "c19_separated_no_reuse for every subcircuit of partition_problem applied to that output",
+            "the separated-workflow theorems (4b) are about the composition of the hand-written models of C03 (cut_wires, "
+            "expand_observables), C10 (partition_problem, separate_circuit) and C11 (ObservableCollection); their oracles and contracts are "
+            "inherited: QuantumCircuit.decompose(TwoQubitQPDGate) keeps every wire's sequence (dx_contract), Qiskit's qubit-wise commuting "
+            "grouping returns only the given observables (grouping_contract), QPDBasis.from_instruction gives bases without Reset for the "
+            "gates partition_problem cuts itself (a hypothesis: true of every registered basis except `move`; a hand-placed Move that "
+            "crosses partitions is the re-use clause's business, c19_no_reset); hypotheses on the input: indices in range, a marker on one "
+            "qubit, no one-qubit barrier already labelled like a split piece (no_uuid), observables with one letter per original qubit; "
+            "`valid` (grouping accepted by the validation, map ids in range) is a hypothesis, as in c19_no_reset; that "
+            "generate_cutting_experiments calls `finish` with exactly these subcircuits, groups and ids is C05's model, not re-proved here",
             "placeholder arity/distinct qubits (QuantumCircuit.append) and 'the subcircuit has no Reset of its own' are hypotheses of "
             "c19_no_reset (part of no_reuse); observables acting on a Move source are excluded by suffix_avoids_sources",
             "M1 (Herbrand adequacy) for the value statements; well-formedness (indices in range, Reset one qubit, Measure one qubit one "
